@@ -170,3 +170,38 @@ func ZZ_C27_prune() {
 	}
 	vrt.Reach("end")
 }
+
+// ZZ_C27_same_slot: several checks of ONE symbolic slot (several signers/headers per slot,
+// re-checks of identical headers): proofs exactly for a different header of the same signer.
+func ZZ_C27_same_slot() {
+	s := &SlotState{db: database.NewTable(kv.New(), slotTablePrefix)}
+	hs := zzHeaders()
+	signers := []types.AuthorityID{{1}, {2}}
+	slot := vrt.U64("slot")
+	now := vrt.U64("now")
+	vrt.Assume(vrt.And(now >= slot, now-slot <= maxSlotCapacity))
+	first := [2]int{-1, -1}
+	n := vrt.Param("checks", 4)
+	for i := 0; i < n; i++ {
+		sfx := string(rune('0' + i))
+		who := vrt.Choice("signer"+sfx, 2)
+		hi := vrt.Choice("hdr"+sfx, 3)
+		proof, err := s.CheckEquivocation(now, slot, hs[hi], signers[who])
+		vrt.Assert("no_error", err == nil)
+		if first[who] >= 0 && first[who] != hi {
+			vrt.Assert("equivocation_reported", proof != nil)
+			if proof != nil {
+				ok := vrt.And(proof.Slot == slot, proof.Offender == signers[who])
+				ok = vrt.And(ok, proof.FirstHeader.Hash() == hs[first[who]].Hash())
+				ok = vrt.And(ok, proof.SecondHeader.Hash() == hs[hi].Hash())
+				vrt.Assert("proof_carries_both_headers", ok)
+			}
+		} else {
+			vrt.Assert("no_false_proof", proof == nil)
+			if first[who] < 0 {
+				first[who] = hi
+			}
+		}
+	}
+	vrt.Reach("end")
+}
